@@ -168,7 +168,9 @@ def level_part(check):
     n = 6000 if check.thorough else 1200
     cases = []
     for i in range(n):
-        g = Gen(rng, p_cfg=0.45, p_skip=0.05, p_mod=0.2, p_noise=0.2, p_serialized_as=0.0)
+        # `flatten` and unsupported types make an item ungeneratable - unless the member carrying them is filtered out, in which case
+        # it must not even be looked at
+        g = Gen(rng, p_cfg=0.45, p_skip=0.05, p_mod=0.2, p_noise=0.2, p_serialized_as=0.0, p_flatten=0.05, p_unsupported=0.03)
         f = g.file()
         tos = rng.choice([[], ["ios"], ["android"], ["ios", "android"], ["macos", "wasm32"], ["linux"]])
         m, r, text = l1.requests(f, g, target_os=tos)
@@ -183,6 +185,47 @@ def level_part(check):
         prob = c03.oracle(c03.expected(f, tos), ra)
         if prob and bad is None:
             bad = (text, tos, prob, ma, ra, r)
+    # metamorphic form of the rule: a member whose cfg rejects the target list is treated as if it were not written at all - the
+    # program with those members deleted must parse to exactly the same result (items, members, error entries) under the same list
+    import copy
+
+    def pruned(f, tos):
+        keep = lambda attrs: c03.accepted(attrs, tos)
+
+        def fields(fs):
+            # only named fields are filtered (the payload of a tuple variant / newtype is not a "field" of the rule)
+            return fs if fs[0] != "named" else (fs[0], [x for x in fs[1] if keep(x["attrs"])])
+
+        def items(its):
+            out = []
+            for it in its:
+                it = copy.deepcopy(it)
+                if it["kind"] in ("mod", "other"):
+                    it["items"] = items(it["items"])
+                elif it["kind"] != "use" and c03.is_annotated(it.get("attrs", [])):
+                    if not keep(it["attrs"]):
+                        continue
+                    if it["kind"] == "struct":
+                        it["fields"] = fields(it["fields"])
+                    elif it["kind"] == "enum":
+                        it["variants"] = [dict(v, fields=fields(v["fields"])) for v in it["variants"] if keep(v["attrs"])]
+                out.append(it)
+            return out
+        return {"attrs": f["attrs"], "items": items(f["items"])} if keep(f["attrs"]) else {"attrs": [], "items": []}
+
+    twins = [(i, c) for i, c in enumerate(cases) if c[1] and "typeshare" in c[4]][: (1500 if check.thorough else 400)]
+    treqs = [l1.requests(pruned(c[0], c[1]), Gen(rng), target_os=c[1])[1] for _, c in twins]
+    for (i, c), ta in zip(twins, runner(treqs)):
+        ra = rans[i]
+        check.count("pruned-twin")
+        if l1.norm(ta) != l1.norm(ra) if hasattr(l1, "norm") else ta != ra:
+            a, b = (ra.get("ok") or {}), (ta.get("ok") or {})
+            what = [k for k in ("structs", "enums", "aliases", "consts", "errors") if isinstance(a, dict) and isinstance(b, dict) and a.get(k) != b.get(k)]
+            if what and bad is None:
+                check.violation("--target-os %s: the program and the same program with the filtered-out members deleted do not parse alike "
+                                "(they differ in %s): a member that the target list excludes still has an effect" % (c[1], what),
+                                case={"source": c[4], "target_os": c[1], "request": c[3]}, impl=ra, model=ta, failing_input=True)
+                return
     if bad:
         text, tos, prob, ma, ra, r = bad
         check.violation("--target-os %s: the generated items / members differ from the documented rule: %s" % (tos, prob),
